@@ -387,7 +387,32 @@ class Driver:
                 self.sol.remove_structure(self.structure(op[1]))
             elif op[0] == "map":
                 x = op[2]
-                self.sol.map_pins({op[1]: (self.structure(x[0]), self.pin(x))})
+                st = self.structure(x[0])
+                self.nmap = getattr(self, "nmap", 0) + 1
+                if self.nmap % 2 == 1:
+                    # first the same exposure with a pin NAME the structure does not have (method or helper): it must
+                    # be refused and leave nothing behind (the state compared next is the one without this call)
+                    try:
+                        if (self.nmap // 2) % 2:
+                            self.sol.map_pins({op[1]: (st, "nosuchpin")})
+                        else:
+                            with self.sol:
+                                lk.putpin(op[1], (st, "nosuchpin"))
+                    except Exception:
+                        pass
+                    else:
+                        self.corrupt = True
+                v = self.nmap % 4
+                if v == 0:
+                    self.sol.map_pins({op[1]: (st, self.pin(x))})
+                elif v == 1:
+                    self.sol.map_pins({op[1]: (st, pname(*x))})          # target pin given by name
+                elif v == 2:
+                    with self.sol:
+                        lk.putpin(op[1], (st, pname(*x)))                 # the helper, target pin by name
+                else:
+                    with self.sol:
+                        lk.putpin(op[1], st.pin[pname(*x)])
             elif op[0] == "raise":
                 self.nraise = getattr(self, "nraise", 0) + 1
                 if self.nraise % 3 != 1:
